@@ -61,6 +61,7 @@ struct block { std::size_t id, size; };
 thread_local int region = 0;        // > 0: heap calls are attributed to the storage operation in progress
 thread_local bool in_hook = false;  // the hook's own bookkeeping allocates
 bool stress = false;                // stress mode: counters only (several threads run freely)
+bool fail_next = false;             // the next `operator new` issued inside a storage call throws std::bad_alloc
 bool cache_on = false;              // one-entry LIFO cache: a freed block is handed to the next `new` of the same size
 void *cache_p = nullptr;
 std::size_t cache_sz = 0;
@@ -90,6 +91,7 @@ void reset() {
     next_id = 0;
     n_new = 0; n_del = 0; n_foreign_del = 0;
     cache_on = false;
+    fail_next = false;
     stress = false;
 }
 
@@ -106,6 +108,12 @@ void *do_new(std::size_t sz) {
         return p;
     }
     if (yield_hook) yield_hook("new");
+    if (fail_next) {
+        fail_next = false;
+        guard g;
+        events->push_back("fail:" + std::to_string(sz));
+        throw std::bad_alloc();
+    }
     guard g;
     void *p;
     if (cache_on && cache_p && cache_sz == sz) {
@@ -430,6 +438,7 @@ struct seq_state {
     std::uint64_t next_tag = 1000;
     bool throw_next = false;       // the next call of the extra object's factory throws
     std::function<std::string()> after_alloc;   // policy specific observation right after a request was served
+    bool fail_new = false;         // this request's `operator new` (if any) throws bad_alloc
 };
 
 static std::string where(seq_state &S, const char *p) {
@@ -578,8 +587,16 @@ static std::string op_alloc(seq_state &st, S &stor, std::size_t sz, int kind /* 
     last_dealloc = call_rec{};
     std::ostringstream os;
     if (kind == -1) {
-        if (!guarded([&] { f.ptr = static_cast<char *>(stor.alloc(sz)); }))
+        bool bad = false;
+        hk::fail_next = st.fail_new;
+        if (!guarded([&] {
+                try { f.ptr = static_cast<char *>(stor.alloc(sz)); } catch (const std::bad_alloc &) { bad = true; }
+            })) {
+            hk::fail_next = false;
             return "assert sz=" + std::to_string(last_req);
+        }
+        hk::fail_next = false;
+        if (bad) return "afail sz=" + std::to_string(last_req) + " thrown=1";
         f.sz = sz;
         if (f.ptr && sz) std::memset(f.ptr, f.pat, sz);
         os << "alloc#" << f.id << " sz=" << sz;
@@ -603,8 +620,16 @@ static std::string op_alloc(seq_state &st, S &stor, std::size_t sz, int kind /* 
         };
         // `c` is the coroutine object: the frame exists, nothing of the body has run yet
         std::optional<async<void>> copt;
-        if (!guarded([&] { copt.emplace(mk()); }))
+        bool bad = false;
+        hk::fail_next = st.fail_new;
+        if (!guarded([&] {
+                try { copt.emplace(mk()); } catch (const std::bad_alloc &) { bad = true; }
+            })) {
+            hk::fail_next = false;
             return "assert sz=" + std::to_string(last_req);
+        }
+        hk::fail_next = false;
+        if (bad) return "cfail sz=" + std::to_string(last_req) + " thrown=1";
         async<void> &c = *copt;
         if (last_alloc.seen) { f.ptr = static_cast<char *>(last_alloc.ptr); f.sz = last_alloc.sz; }
         os << " sz=" << f.sz;
@@ -755,7 +780,7 @@ static void seq_loop(seq_state &st, Pol &pol, std::function<std::string(const st
         bool occupied = false;
         if (st.single)
             for (auto &f : st.frames) occupied = occupied || f->live;
-        if (occupied && (w[0] == "alloc" || w[0] == "coro" || w[0] == "cdrop" || w[0] == "cstart" || w[0] == "athrow" || w[0] == "cthrow")) {
+        if (occupied && (w[0] == "alloc" || w[0] == "coro" || w[0] == "cdrop" || w[0] == "cstart" || w[0] == "athrow" || w[0] == "cthrow" || w[0] == "afail" || w[0] == "cfail")) {
             head = "skip";
         } else if (w[0] == "alloc" && w.size() >= 3) {
             std::size_t k = std::strtoul(w[1].c_str(), nullptr, 10), sz = std::strtoul(w[2].c_str(), nullptr, 10);
@@ -764,6 +789,14 @@ static void seq_loop(seq_state &st, Pol &pol, std::function<std::string(const st
             std::size_t k = std::strtoul(w[1].c_str(), nullptr, 10);
             int kind = std::atoi(w[2].c_str()) & 7;
             head = pol.has(k) ? op_alloc(st, pol.sel(k), w[0] == "cdrop" ? std::size_t(-2) : 0, kind) : "skip";
+        } else if ((w[0] == "afail" || w[0] == "cfail") && w.size() >= 3) {
+            // the request's operator new (if the policy calls it at all) throws bad_alloc; otherwise an ordinary request
+            std::size_t k = std::strtoul(w[1].c_str(), nullptr, 10), v = std::strtoul(w[2].c_str(), nullptr, 10);
+            st.fail_new = true;
+            if (!pol.has(k)) head = "skip";
+            else if (w[0] == "afail") head = op_alloc(st, pol.sel(k), v, -1);
+            else head = op_alloc(st, pol.sel(k), 0, static_cast<int>(v & 7));
+            st.fail_new = false;
         } else if ((w[0] == "athrow" || w[0] == "cthrow") && w.size() >= 3) {
             std::size_t k = std::strtoul(w[1].c_str(), nullptr, 10), v = std::strtoul(w[2].c_str(), nullptr, 10);
             if (!st.ex || !pol.has(k)) head = "skip";
@@ -1132,12 +1165,17 @@ void body(worker *w) {
             f.id = w->fid;
             f.pat = static_cast<unsigned char>(0xA0 + (f.id * 7) % 0x5f);
             f.sz = w->arg;
-            f.ptr = static_cast<char *>(stor->alloc(f.sz));
-            if (f.ptr && f.sz) std::memset(f.ptr, f.pat, f.sz);
-            f.live = true;
-            res = "done f" + std::to_string(f.id) + " at=" + where(*st, f.ptr);
-            if (overlaps(*st, f)) res += " OVERLAP";
-            (*st).frames[f.id] = std::move(fr);
+            bool bad = false;
+            try { f.ptr = static_cast<char *>(stor->alloc(f.sz)); } catch (const std::bad_alloc &) { bad = true; }
+            if (bad) {
+                res = "failed f" + std::to_string(f.id);
+            } else {
+                if (f.ptr && f.sz) std::memset(f.ptr, f.pat, f.sz);
+                f.live = true;
+                res = "done f" + std::to_string(f.id) + " at=" + where(*st, f.ptr);
+                if (overlaps(*st, f)) res += " OVERLAP";
+                (*st).frames[f.id] = std::move(fr);
+            }
         } else if (c == worker::FREE) {
             w->skip_pause = true;
             frame_rec &f = *(*st).frames[w->arg];
@@ -1196,7 +1234,12 @@ static void run_sched(const std::vector<std::string> &w) {
         sc::worker &wk = *sc::workers[t];
         std::string head = "t" + std::to_string(t) + " ";
         if (!idle(wk)) {
-            out_line(head + "go " + sc::grant(&wk));
+            // `fail`: the operator new this thread is about to call (if that is what it is about to do) throws bad_alloc
+            bool fl = ww[1] == "fail" && wk.pending == "new";
+            hk::fail_next = fl;
+            std::string r = sc::grant(&wk);
+            hk::fail_next = false;
+            out_line(head + (fl ? "fail " : "go ") + r);
         } else if (ww[1] == "alloc" && ww.size() >= 3) {
             wk.cmd = sc::worker::ALLOC;
             wk.arg = std::strtoul(ww[2].c_str(), nullptr, 10);
